@@ -126,6 +126,38 @@ def mem_scenario(fn, mode, rd_wr, io):
     s.claim("nonneg", v >= 0)
     if mode == "fixed" and not io:
       s.claim("fixed_is_free", v == 0)
+    # documented function of the tensor size (docstrings of memory_read/write_energy and of QTools.pe):
+    #   a model input / output tensor lives in DRAM when rd_wr_on_io, else in SRAM, whatever the placement option;
+    #   other tensors follow the placement option; 'fixed' costs nothing;
+    #   a DRAM access costs dram(total_bits); an SRAM access costs ceil(total_bits * sram_mul_factor) * sram(log2(max(total_bits, min_sram_size)));
+    #   with rd_wr_on_io a DRAM read is followed by an SRAM write and a DRAM write is preceded by an SRAM read.
+    eff = ("dram" if rd_wr else "sram") if io else mode
+    total = z3.ToReal(d1 * d2 * bits)
+    big = z3.If(total >= z3.ToReal(msz), total, z3.ToReal(msz))
+    ip.assume(big > 0)
+    lg = I.LOG2(big)
+
+    def poly(coeffs, x):
+      acc = z3.RealVal(0)
+      for c in coeffs:
+        acc = acc * x + zreal(c)
+      return acc
+    pos = lambda e: z3.If(e >= 0, e, z3.RealVal(0))
+    dram = pos(poly([20.3125, 0], total))
+    sram_unit = pos(poly([0.02455, -0.2656, 0.8661], lg))
+    from pyvc import lib as L
+    words = L.fresh_ceil(ip, total * zreal(1 / 64.))
+    words = z3.ToReal(words) if words.sort() == z3.IntSort() else words
+    sram = words * sram_unit
+    if eff == "fixed":
+      spec = z3.RealVal(0)
+    elif eff == "sram":
+      spec = sram
+    else:
+      spec = dram + (sram if rd_wr else 0)
+    if spec is not None:
+      s.vars["energy"] = v
+      s.claim("documented_value", v == spec)
     return s
   return scenario
 
